@@ -5,22 +5,22 @@ HERE = os.path.dirname(os.path.abspath(__file__))
 
 CLAIMED = {
  "C06": dict(
-   text="Seeded search over what must not matter to a seeded forest: every run fits the same forest twice — twin A under one simulator-owned ambient RNG stream, then other estimators run (history pollution), then twin B on another OS thread under a different stream; each twin is driven with a generated call sequence (predict / predict_oob / predict on a same-shape, single-row and stacked matrix, with repetitions) (seeded, extreme words, or no simulator source at all) — and a prefix of every batch is re-run in a second OS process. A further batch injects faults into the forest's own seeded generator (seam S1b: boundary words 0/1/MAX/... at a seeded subset of its draws, the same plan for every twin, so the stream stays a pure function of the seed): bootstrap samples and sub-seeds a ChaCha stream reaches with negligible probability. Another batch adds an adversarial comparator party: the tree fits' own index sort (real code, driven through its generic element type behind a cfg-guarded wrapper) is led through its worst case by lazily decided comparisons (McIlroy's adversary), and the resulting order becomes a feature column of the twins. A cfg-guarded probe at the start of every tree fit logs the sample each tree is grown from, and the masks the model keeps are checked against that history. Forests are also asked 1e3..6.5e4 rows in one call and, restored from their serialised form, the same questions again. Twins must be byte-identical (bincode), equal under the model's own PartialEq, predict identically, and consume zero ambient words (tape log). Aggregation, out-of-bag aggregation over exactly the trees whose bootstrap mask excludes the row, stratification, range and tree-count are judged on the recorded history (serde image of trees[]/samples[], member trees rebuilt and their real predict called).",
+   text="Seeded search over what must not matter to a seeded forest: every run fits the same forest twice — twin A under one simulator-owned ambient RNG stream, then other estimators run (history pollution), then twin B on another OS thread under a different stream; each twin is driven with a generated call sequence (predict / predict_oob / predict on a same-shape, single-row and stacked matrix, with repetitions) (seeded, extreme words, or no simulator source at all) — and a prefix of every batch is re-run in a second OS process. A further batch injects faults into the forest's own seeded generator (seam S1b: boundary words 0/1/MAX/... at a seeded subset of its draws, the same plan for every twin, so the stream stays a pure function of the seed): bootstrap samples and sub-seeds a ChaCha stream reaches with negligible probability. Another batch adds an adversarial comparator party: the tree fits' own index sort (real code, driven through its generic element type behind a cfg-guarded wrapper) is led through its worst case by lazily decided comparisons (McIlroy's adversary), and the resulting order becomes a feature column of the twins. A cfg-guarded probe at the start of every tree fit logs the sample each tree is grown from, and the masks the model keeps are checked against that history. Forests are also asked 1e3..4e6 rows in one call, the same rows again in another order and from another thread, through ndarray / nalgebra matrices, and - restored from their serialised form - the same questions again. Twins must be byte-identical (bincode), equal under the model's own PartialEq, predict identically, and consume zero ambient words (tape log). Aggregation, out-of-bag aggregation over exactly the trees whose bootstrap mask excludes the row, stratification, range and tree-count are judged on the recorded history (serde image of trees[]/samples[], member trees rebuilt and their real predict called).",
    design_ref="DESIGN.md 5.4",
    note="Trusts: patched rand 0.8.8 (ThreadRng word source; StdRng untouched unless a fault plan is installed, then a pure function of seed+plan), serde/bincode as observation channel. Rows without any out-of-bag tree are not judged. Real: both forests, both trees, StdRng, the index sort. Stub: ambient ThreadRng entropy; the element type of the sort during the adversary's construction (comparisons answered by the party).",
    technique="deterministic simulation: twin fits under perturbed ambient RNG / thread / process / history (fault injection around the seed), recorded-history aggregation oracles vs reference plurality/mean model"),
  "C16": dict(
-   text="Seeded search over the schedules the property quantifies over: every permutation KFold/train_test_split can draw is decided by the simulator through the patched ThreadRng seam (all n! orders for n<=5 exhaustively, >1e5 distinct decoded permutations per quick run for n<=64, extreme words at random draw sites), shuffle-off enumerated exhaustively for all 2<=k<=n<=64; leakage is judged from the rows the recording estimator/scorer parties actually receive, as in-run invariants and as a check over the recorded history, also under injected estimator failures and with harness-owned splitters (training lists that are not the complement, unsorted, resampled with repetitions, empty test lists, nominal n_splits). Few-run batches reach the far ends of the domain (train_test_split on > 2^24 rows, KFold with > 65536 folds streamed from the iterator). A clean batch is evidence, not proof, for n>5 with shuffling on.",
+   text="Seeded search over the schedules the property quantifies over: every permutation KFold/train_test_split can draw is decided by the simulator through the patched ThreadRng seam (all n! orders for n<=5 exhaustively, >1e5 distinct decoded permutations per quick run for n<=64, extreme words at random draw sites), shuffle-off enumerated exhaustively for all 2<=k<=n<=64; leakage is judged from the rows the recording estimator/scorer parties actually receive, as in-run invariants and as a check over the recorded history, also under injected estimator failures and with harness-owned splitters (training lists that are not the complement, unsorted, resampled with repetitions, empty test lists, nominal n_splits), in sessions of several calls on one thread (each call judged), with two split iterators alive at once and advanced in a seeded interleaving, with iterators that change threads, and across counter boundaries (2^8 / 2^16 calls or folds between two identical splits). Few-run batches reach the far ends of the domain (train_test_split on > 2^24 rows, KFold with > 65536 folds streamed from the iterator). A clean batch is evidence, not proof, for n>5 with shuffling on.",
    design_ref="DESIGN.md 5.1",
    note="Trusts: the patched copy of rand 0.8.8 (only ThreadRng's word source is replaced; shuffle/gen_range are rand's real code), the harness's identity-carrying workload (row id in column 0, re-derivable from every column and the target). Real: smartcore model_selection + take on DenseMatrix/Vec, ndarray (both memory layouts) and nalgebra (train_test_split). Stub: ThreadRng entropy, estimator/scorer closures (recording parties).",
    technique="deterministic simulation: seeded PRNG owns every thread_rng draw (forced/extreme/random permutations), recorded-history leakage oracle, estimator-failure injection, replayable tape"),
  "C12": dict(
-   text="Seeded search over k-means++ initialisations: the simulator serves every thread_rng word behind the first-centroid index and every D^2 cut-off (PRNG words, extreme words such as cut-off 0.0 / 1-2^-53, forced first row), so each run is one exactly replayable initialisation; a cfg-guarded in-run probe hands every tree-accelerated assignment step (the centroids actually used, sums, counts, membership, distortion) to an exhaustive-search reference model while the fit proceeds, and the fitted model (k/size/centroids/_y via serde) and predict are judged afterwards (also with 1e3..6.5e4 rows in one call, and on the model restored from its serialised form). The assignment step is additionally driven directly with coincident / far-outside / mid-point centroid sets (schedule-free, reported separately). A process-killing run is contained by a supervising process and reported with its replay file.",
+   text="Seeded search over k-means++ initialisations: the simulator serves every thread_rng word behind the first-centroid index and every D^2 cut-off (PRNG words, extreme words such as cut-off 0.0 / 1-2^-53, forced first row), so each run is one exactly replayable initialisation; a cfg-guarded in-run probe hands every tree-accelerated assignment step (the centroids actually used, sums, counts, membership, distortion) to an exhaustive-search reference model while the fit proceeds, and the fitted model (k/size/centroids/_y via serde) and predict are judged afterwards (also with 1e3..4e6 rows in one call, the same rows in another order and from another thread, through ndarray / nalgebra matrices, and on the model restored from its serialised form). The assignment step is additionally driven directly with coincident / far-outside / mid-point centroid sets (schedule-free, reported separately). A process-killing run is contained by a supervising process and reported with its replay file.",
    design_ref="DESIGN.md 5.3",
    note="Trusts: patched rand 0.8.8 (ThreadRng word source only), the add-only cfg(smartcore_verif) probe and bbd_clustering wrapper in /repo/src/verif.rs, f64 exhaustive search as reference with tolerances >=100x the measured worst case (reported in evidence). Real: KMeans fit/predict/kmeans_plus_plus, BBDTree. Stub: ThreadRng entropy.",
    technique="deterministic simulation: seeded PRNG/extreme/forced words behind k-means++ draws, in-run invariant at every Lloyd step vs exhaustive-search reference model, crash containment, replayable tape"),
  "C10": dict(
-   text="Seeded search over the visiting orders the trainer may draw: every thread_rng word behind Optimizer::permutate (initialize + each epoch) is served by the simulator, so a fit is one exactly replayable tuple of permutations out of (n!)^(1+epoch); all order pairs for n<=4 (all initialize orders for n=5) are enumerated, larger n sampled with PRNG / extreme / forced adversarial orders (one class first, reverse, rotations). After each fit the dual box, sum-to-zero, support-vectors-are-training-rows, kernel-expansion (against closed forms computed in the harness) and label-rule oracles are evaluated on the model's serde image; termination is decided deterministically, without a wall clock: a cfg-guarded tick in the SMO loops delivers a digest of the optimizer state on every iteration and Brent cycle detection proves non-termination when a state repeats inside one loop (the loops are deterministic in that state); kernel-evaluation / iteration budgets through the Kernel trait seam remain as a far-away fallback. SVR (draws nothing; regular region, a slowly-converging C=100 batch, fits needing 1e7..1e8 updates, fractional polynomial degrees, calls with 1e3..6.5e4 rows, models restored from their serialised form, and a batch whose C and targets are tuned to the data to the last bits — equal to or 2^-j off the unclipped optimum of a pair of rows — so that SMO steps land on the bounds) and the kernel closed forms / symmetry / PSD clauses ride along as schedule-free configurations, reported separately.",
+   text="Seeded search over the visiting orders the trainer may draw: every thread_rng word behind Optimizer::permutate (initialize + each epoch) is served by the simulator, so a fit is one exactly replayable tuple of permutations out of (n!)^(1+epoch); all order pairs for n<=4 (all initialize orders for n=5) are enumerated, larger n sampled with PRNG / extreme / forced adversarial orders (one class first, reverse, rotations). After each fit the dual box, sum-to-zero, support-vectors-are-training-rows, kernel-expansion (against closed forms computed in the harness) and label-rule oracles are evaluated on the model's serde image; termination is decided deterministically, without a wall clock: a cfg-guarded tick in the SMO loops delivers a digest of the optimizer state on every iteration and Brent cycle detection proves non-termination when a state repeats inside one loop (the loops are deterministic in that state); kernel-evaluation / iteration budgets through the Kernel trait seam remain as a far-away fallback. SVR (draws nothing; regular region, a slowly-converging C=100 batch, fits needing 1e7..1e8 updates, fractional polynomial degrees, whole-number degrees up to 20, calls with 1e3..4e6 rows, the same rows asked again in another order, cloned parameter values, models restored from their serialised form, and a batch whose C and targets are tuned to the data to the last bits — equal to or 2^-j off the unclipped optimum of a pair of rows — so that SMO steps land on the bounds) and the kernel closed forms / symmetry / PSD clauses ride along as schedule-free configurations, reported separately.",
    design_ref="DESIGN.md 5.2",
    note="Trusts: patched rand 0.8.8 (ThreadRng word source only), the Counting<K> wrapper (delegates to the real kernels), the add-only cfg(smartcore_verif) tick hook, closed-form kernels written in the harness. SVR optimality slack = tol + 1e-9*scale (stopping rule guarantees tol/2), 'at the bound' = within 4 ulp of C, residual sign checked against coefficient sign, sum-to-zero judged against 4*eps*C per solver update; SVR workload restricted to the fast-converging region (see evidence assumptions). Real: SVC/SVR optimisers, kernels, predict/decision_function. Stub: ThreadRng entropy, counting kernel wrapper.",
    technique="deterministic simulation: seeded PRNG owns every permutation SVC visits rows in (exhaustive for n<=4), liveness by state-cycle detection over tick-hook state digests (+ logical-clock fallback budget), dual-feasibility/kernel-expansion oracles vs closed-form reference, replayable tape"),
@@ -78,7 +78,7 @@ def main():
             "name": "dst-harness",
             "path": "/verif/sim/harness",
             "serves_properties": sorted(CLAIMED.keys()),
-            "kind_free_text": "deterministic simulation with fault injection: one binary; a seeded PRNG (VERIF_SEED) decides every ambient-RNG word (tape), workload, parameter and fault; in-run invariants + history oracles against small reference models; thread-hop and process-hop determinism proofs; greedy minimisation; replay files re-run in a fresh process",
+            "kind_free_text": "deterministic simulation with fault injection: one binary; a seeded PRNG (VERIF_SEED) decides every ambient-RNG word (tape), workload, parameter and fault; in-run invariants + history oracles against small reference models; thread-hop and process-hop determinism proofs; greedy minimisation (candidates on fresh threads); replay files re-run in a fresh process; violations that depend on hidden thread-local state are replayed with their minimised history, violations that depend on nondeterminism the simulator does not own (real threads started by a changed tree) by stressed re-execution, flagged as probabilistic",
         }],
         "checks": checks,
         "not_applicable": na,
